@@ -16,7 +16,7 @@ from core import hx
 from runner import Case
 
 THEOREMS = [
-    "C06.rows_complete", "C06.dict_complete_assign", "C06.dict_complete", "C06.paths_distinct",
+    "C06.record_exact", "C06.record_exact_all", "C06.rows_complete", "C06.dict_complete_assign", "C06.dict_complete", "C06.paths_distinct",
     "C06.nested_complete", "C06.nested_empty", "C06.dict_roundtrip", "C06.nested_roundtrip",
     "C06.rows_roundtrip", "C06.rows_roundtrip_attrs",
     "C06.newick_table_ok", "C06.newick_table_is_generated", "C06.newick_stack_invariant", "C06.newick_roundtrip",
